@@ -45,6 +45,35 @@ class SymSet:
         # lazy: forks only when iterated (sorted(...) in the missing-dependency message)
         return SymSet([u for u in self.universe if u not in other], {u: self.bits[u] for u in self.universe if u not in other})
 
+    # operator forms of the same two questions (a refactor may write `required <= available` or `required - available`)
+    def __le__(self, other):
+        return self.issubset(other)
+
+    def __lt__(self, other):
+        # proper subset: a subset, and some element of `other` is not a member
+        other = set(other)
+        lacking = [z3.Not(self.bits[u]) if u in self.bits else z3.BoolVal(True) for u in other]
+        return SymBool(z3.And(self.issubset(other).t, z3.Or(*lacking) if lacking else z3.BoolVal(False)))
+
+    def __sub__(self, other):
+        return self.difference(other)
+
+    def __and__(self, other):
+        return self.intersection(other)
+
+    def intersection(self, other):
+        return SymSet([u for u in self.universe if u in other], {u: self.bits[u] for u in self.universe if u in other})
+
+    def isdisjoint(self, other):
+        out = [z3.Not(self.bits[u]) for u in self.universe if u in other]
+        return SymBool(z3.And(*out) if out else z3.BoolVal(True))
+
+    def __bool__(self):
+        return bool(SymBool(z3.Or(*[self.bits[u] for u in self.universe]))) if self.universe else False
+
+    def __len__(self):
+        return len(list(iter(self)))
+
     def __repr__(self):
         return "{<symbolic set>}"
 
@@ -164,13 +193,20 @@ class GraphAPI(Scenario):
     float_shim = ["mxlpy.model"]
     isinstance_shim = ["mxlpy.model"]  # a symbolic value counts as a float in `isinstance(v, float)` tests
 
-    def __init__(self, cfg, edges, missing_at, order):
+    def __init__(self, cfg, edges, missing_at, order, missing_name="nope"):
+        self.missing_name = missing_name  # "nope", or "@surrogate": the surrogate's own name - an id of the model, but not a value
         self.cfg = cfg
         self.edges = edges  # frozenset of (i, j): component i names component j
         self.missing_at = missing_at
         self.order = order
         e = "".join(f"{i}{j}" for i, j in sorted(edges))
-        self.key = f"C02/api/{cfg}/e{e or '-'}/m{missing_at if missing_at is not None else '-'}/o{''.join(map(str, order))}"
+        self.key = f"C02/api/{cfg}/e{e or '-'}/m{missing_at if missing_at is not None else '-'}/o{''.join(map(str, order))}{'' if missing_name == 'nope' else '/names-' + missing_name}"
+
+    def missing(self):
+        if self.missing_name == "@surrogate":
+            kinds = CONFIGS[self.cfg]
+            return self.names()[kinds.index("surrogate")]
+        return self.missing_name
 
     def names(self):
         kinds = CONFIGS[self.cfg]
@@ -190,7 +226,7 @@ class GraphAPI(Scenario):
         for i in self.order:
             args = (["k", "x"] if kinds[i] in ("ia_param", "ia_var") else ["k"]) + [out_name[j] for (a, j) in sorted(self.edges) if a == i]
             if self.missing_at == i:
-                args.append("nope")
+                args.append(self.missing())
             kind = kinds[i]
             if kind == "derived":
                 m.add_derived(names[i], nsum, args=args)
@@ -236,8 +272,8 @@ class GraphAPI(Scenario):
         except mm.MissingDependenciesError as e:
             ctx.true("MissingDependenciesError only for a missing name", missing)
             words = set(re.findall(r"[A-Za-z_][A-Za-z_0-9]*", str(e)))
-            others = [n_ for i_, n_ in enumerate(names) if i_ != self.missing_at]
-            ok = bool(missing) and "nope" in words and names[self.missing_at] in words and not any(o in words for o in others)
+            others = [n_ for i_, n_ in enumerate(names) if i_ != self.missing_at and n_ != self.missing()]
+            ok = bool(missing) and self.missing() in words and names[self.missing_at] in words and not any(o in words for o in others)
             ctx.true("message lists exactly the missing name under its component", ok, info=str(e))
             return
         except mm.CircularDependencyError:
@@ -307,6 +343,11 @@ def scenarios(tier, seed):
                     for o in (orders if not cyc else [orders[idx % 6]]):
                         scs.append(GraphAPI(cfg, es, None, o))
                     scs.append(GraphAPI(cfg, es, idx % 3, orders[(idx + 1) % 6]))
+    # a component that names the surrogate itself (an id of the model, but not a value: only its outputs are), in every declaration order
+    for o in orders:
+        for at in (0, 1, 2):
+            scs.append(GraphAPI("VDS", frozenset(), at, o, missing_name="@surrogate"))
+        scs.append(GraphAPI("VDS", frozenset({(1, 2)}), 2, o, missing_name="@surrogate"))
     if tier != "quick":
         # four components: every DAG over a fixed topological numbering x every declaration order, plus one back edge
         pot4 = [(i, j) for i in range(4) for j in range(i)]
